@@ -303,6 +303,7 @@ def run_property(pid, tier='quick', seed=0):
         if id(f) not in seen_f:
             seen_f.add(id(f))
             lines.append('KNOWN-FINDING: property=%s %s' % (pid, f.rest))
+    stale = [f for f in findings if id(f) not in seen_f]
     for q, o, rep in violations:
         suffix = '' if rep.get('reproduced') else ' no-failing-input-found'
         lines.append('VIOLATION property=%s replay=%s%s' % (pid, rep['path'], suffix))
@@ -382,6 +383,9 @@ def run_property(pid, tier='quick', seed=0):
         print('CHECKER-FAULT in %s: %s' % (q, reason), file=sys.stderr)
     for q, o in unknown:
         print('UNDECIDED %s (%s)' % (o.name, o.reason), file=sys.stderr)
+    for f in stale:
+        print('STALE-FINDING (listed in known_findings.txt, not observed in this run; it would mask nothing but should be '
+              'reviewed): property=%s %s' % (pid, f.rest[:160]), file=sys.stderr)
     for n in missing:
         print('MISSING named obligation %s' % n, file=sys.stderr)
     for q, reason in downgraded:
